@@ -3,7 +3,9 @@
 From GV Require Export Corr.Import Model.GtfSpec.
 Open Scope Z_scope.
 
-Inductive case := Case (g : gtfcfg) (strat : strategy) (feats : list row) (impl : result tables).
+Inductive case := Case (g : gtfcfg) (strat : strategy)
+                       (extra : list (str * list idkey))     (* further id_spec entries, e.g. the subfeature type keyed on exon_id *)
+                       (feats : list row) (impl : result tables).
 
 Definition keys_of (k : str) (l : list row) : list str :=
   dedup_strs (flat_map (fun f => match first_val k f with Some v => [v] | None => [] end) l).
@@ -71,9 +73,10 @@ Definition spec_ok (lenient : bool) (g : gtfcfg) (feats : list row) (t : tables)
 
 Definition verdict (c : case) : Z :=
   match c with
-  | Case g strat feats impl =>
+  | Case g strat extra feats impl =>
     if in_domain g feats then
-      match import_gtf call_table g strat [] (gtf_spec g) feats empty_st, impl with
+      let spec := match gtf_spec g with SDict d => SDict (d ++ extra) | x => x end in
+      match import_gtf call_table g strat [] spec feats empty_st, impl with
       | Ok st, Ok t =>
           if st_matches_set st t then
             if spec_ok false g feats t then (if f21_class g feats then V_FIXED else V_OK)
